@@ -215,3 +215,30 @@ def nopath_api_jobs():
                        api={"filename": fn, "outdir": OUT, "path": None},
                        meta={"source": "apinp", "yaml": "np" + tag, "cwd_free": False}))
     return out
+
+
+def shared_splicer_jobs():
+    """Variants of one small library that read the *same* splicer files; some add explicit
+    splicer_code for other blocks of sections the files also use (function.*), some do not."""
+    d = "/sim/shared"
+    base = ("copyright:\n- shared splicer files\n-\nlibrary: shlib\ncxx_header: shlib.hpp\noptions:\n  debug: True\n"
+            "splicer:\n  c:\n  - shared.c\n  f:\n  - shared.f\n"
+            "declarations:\n- decl: int alpha_one(int arg)\n- decl: void beta_two(const std::string &name)\n"
+            "- decl: double gamma_three(double x = 1.5)\n")
+    csp = ("// splicer begin function.alpha_one\n// alpha from the shared file\nreturn alpha_one(arg);\n"
+           "// splicer end function.alpha_one\n// splicer begin C_definitions\n// shared C definitions\n"
+           "// splicer end C_definitions\n")
+    fsp = ("! splicer begin function.alpha_one\n! alpha from the shared file\nSHT_rv = c_alpha_one(arg)\n"
+           "! splicer end function.alpha_one\n")
+    out = []
+    for k, code in enumerate([None,
+                              "splicer_code:\n  c:\n    function:\n      beta_two_bufferify:\n      - // beta from splicer_code %d\n"
+                              "      - beta_two(std::string(name, Lname));\n  f:\n    function:\n      gamma_three:\n      - ! gamma %d\n",
+                              "splicer_code:\n  c:\n    function:\n      gamma_three:\n      - // gamma from splicer_code %d\n"
+                              "      - return gamma_three(x);\n"]):
+        text = base + ((code % ((k,) * code.count("%d"))) if code else "")
+        fn = d + "/shlib%d.yaml" % k
+        files = {fn: text, d + "/shared.c": csp, d + "/shared.f": fsp}
+        out.append(Job("shsplice/%d" % k, files, ["--path", d, "--outdir", OUT, "--logdir", OUT, "--nowrite-version", fn],
+                       [OUT, WORK, d], meta={"source": "shsplice", "yaml": "shlib", "cwd_free": True}))
+    return out
